@@ -636,7 +636,7 @@ func stressDirect(run *evid.Run, round int, reg ociregistry.Interface, mode stri
 	var wg sync.WaitGroup
 	var listBad atomic.Value
 	var contentBad atomic.Value
-	var opsDone atomic.Int64
+	var opsDone, referrerPushes, referrersSeen atomic.Int64
 	for g := 0; g < nG; g++ {
 		wg.Add(1)
 		go func(g int) {
@@ -656,8 +656,18 @@ func stressDirect(run *evid.Run, round int, reg ociregistry.Interface, mode stri
 						myManifests = append(myManifests, d.Digest)
 					}
 				case 4:
-					mf := []byte(fmt.Sprintf(`{"schemaVersion":2,"mediaType":%q,"config":{"mediaType":"application/octet-stream","digest":%q,"size":%d},"layers":[]}`, model.MTImage, model.Digest(b), len(b)))
-					reg.PushManifest(bg, repo, tag, mf, model.MTImage)
+					// half of these name one of the blobs as their subject, so that the Referrers calls
+					// below have manifests to describe
+					subj := ""
+					if rng.IntN(2) == 0 {
+						sb := blobs[rng.IntN(len(blobs))]
+						subj = fmt.Sprintf(`,"subject":{"mediaType":%q,"digest":%q,"size":%d}`, model.MTImage, model.Digest(sb), len(sb))
+					}
+					mf := []byte(fmt.Sprintf(`{"schemaVersion":2,"mediaType":%q,"config":{"mediaType":"application/octet-stream","digest":%q,"size":%d},"layers":[]%s}`, model.MTImage, model.Digest(b), len(b), subj))
+					if d, err := reg.PushManifest(bg, repo, tag, mf, model.MTImage); err == nil && subj != "" {
+						referrerPushes.Add(1)
+						reg.ResolveManifest(bg, repo, d.Digest)
+					}
 				case 5:
 					data, desc, err := readAll(reg.GetBlob(bg, repo, blobDesc(b).Digest))
 					if err == nil && model.Digest(data) != string(desc.Digest) {
@@ -699,7 +709,12 @@ func stressDirect(run *evid.Run, round int, reg ociregistry.Interface, mode stri
 						return true
 					})
 				case 14:
-					reg.Referrers(bg, repo, blobDesc(b).Digest, "")(func(ociregistry.Descriptor, error) bool { return true })
+					reg.Referrers(bg, repo, blobDesc(b).Digest, "")(func(d ociregistry.Descriptor, err error) bool {
+						if err == nil {
+							referrersSeen.Add(1)
+						}
+						return true
+					})
 				case 15, 16, 17:
 					// shared upload session: resume (with and without offset), write, size
 					id := ids[rng.IntN(2)]
@@ -738,6 +753,8 @@ func stressDirect(run *evid.Run, round int, reg ociregistry.Interface, mode stri
 	wg.Wait()
 	run.Eval(1)
 	run.Count("stress_ops/"+mode, int(opsDone.Load()))
+	run.Count("stress_referrer_manifests_pushed", int(referrerPushes.Load()))
+	run.Count("stress_referrers_described", int(referrersSeen.Load()))
 	run.Distinct(fmt.Sprintf("stress/%s/goroutines=%d/procs=%d", mode, nG, runtime.GOMAXPROCS(0)))
 	if v := listBad.Load(); v != nil {
 		run.Violation("invariant/concurrent-listing-order/"+mode, fmt.Sprint(v), map[string]any{"round": round})
@@ -809,6 +826,7 @@ func main() {
 	run.FloorCounter("forced_windows_hit", run.N(50, 2000))
 	run.FloorCounter("overlapping_pairs", 1000)
 	run.FloorCounter("porcupine_ok", 1)
+	run.FloorCounter("stress_referrers_described", 20)
 	run.Floor("tag_reads/direct", 10000, int(run.Counter("tag_reads/direct")))
 	run.Floor("stress_ops/direct", 5000, int(run.Counter("stress_ops/direct")))
 	run.Floor("stress_ops/http", 500, int(run.Counter("stress_ops/http")))
